@@ -18,8 +18,10 @@ WHAT IS TAKEN AS THE DEFINITION (ETSI TS 102 361-1 annex B.3, as cited in the li
   CCITT  front end: octets MSB first; remainder inverted (xor 0xFFFF), then xor data-type mask (B.3.12).
   CRC-9  front end: M = data octets MSB first || [message CRC-32, 4 octets in on-air order, when present]
            || 7-bit data block serial number MSB first; remainder inverted (xor 0x1FF), xor mask.
-           Parameter convention of calculate_from_parts: crc32 None or the integer 0 = "not a last block"
-           (library default of the PDU classes); bytes = appended as given; int = 4 octets big-endian.
+           Parameter convention of calculate_from_parts: crc32 None = "not a last block"; bytes = appended as
+           given; non-zero int = 4 octets big-endian.  The integer 0 is the PDU classes' default for "no
+           message CRC" and is treated as absent on the pinned tree; the statement does not define it, so
+           both readings (absent / four zero octets) are accepted and the implemented one is recorded.
   CRC-32 front end: every pair of octets swapped (an unpaired trailing octet stays), octets MSB first,
            the remainder itself as an int (no inversion, no mask).  The on-air field holds that int
            little-endian; that placement is outside CRC32.calculate.
@@ -335,14 +337,23 @@ def w_crc9_parts(task):
                 case = {"op": "crc9_parts", "data": data.hex(), "dbsn": dbsn, "mask": mname,
                         "crc32": c32.hex() if isinstance(c32, bytes) else c32}
                 want = def_crc9_parts(data, dbsn, MASK_TABLE[mname], c32)
+                ok_values = {want}
+                int0 = isinstance(c32, int) and c32 == 0
+                if int0:
+                    # the statement does not say whether the integer 0 means "no message CRC" (pinned tree) or "message
+                    # CRC 0x00000000" (four zero octets): both readings are accepted, the one implemented is recorded
+                    ok_values.add(def_crc9_parts(data, dbsn, MASK_TABLE[mname], bytes(4)))
+                reading = "-"
                 try:
                     got = CRC9.calculate_from_parts(data=data, serial_number=dbsn, mask=m, crc32=c32)
-                    if got != want:
-                        acc.violation("crc9_front_end_mismatch", {**case, "got": got, "want": want},
+                    if got not in ok_values:
+                        acc.violation("crc9_front_end_mismatch", {**case, "got": got, "want": sorted(ok_values)},
                                       "CRC9.calculate_from_parts != (remainder of data||crc32||dbsn xor 1FF) xor mask")
+                    elif int0:
+                        reading = "int0=absent" if got == want else "int0=zero_octets"
                 except Exception as e:
                     acc.violation("exception_crc9:" + exc_sig(e), case, repr(e))
-                acc.case(nontrivial=True, outcome=(mname, len(data), type(c32).__name__),
+                acc.case(nontrivial=True, outcome=(mname, len(data), type(c32).__name__, reading),
                          sample=case if dbsn == 17 and len(data) == 16 and c32 is None else None)
     return acc
 
@@ -545,8 +556,8 @@ def run(only=None):
         "library docstrings; anchored on 10 captured on-air vectors quoted in okdmr/tests",
         "a bit string is the index-order content of a bitarray; storage endianness is not part of it (bitarray '==' ignores it)",
         "CRC-32 of an odd number of octets (never on air): the unpaired last octet is not swapped",
-        "calculate_from_parts: crc32=None and crc32=0 (int) both mean 'no message CRC in this block' (library parameter "
-        "convention); a genuine message CRC of 0x00000000 passed as int is therefore out of reach (in-band sentinel, see C04)",
+        "calculate_from_parts: crc32=0 (int) may mean 'no message CRC in this block' (pinned tree) or four zero octets; the "
+        "statement does not say, both are accepted (in-band sentinel, owned by C04)",
         "CPython, bitarray behave as documented; asserts enabled",
     ]
 
